@@ -848,7 +848,7 @@ pub fn gen_c17<W: Write>(w: &mut W, tier: &str, seed: u64) {
     // numeric field spellings and their integer values
     let nums: &[(&str, i64)] = &[("12", 12), (" 12 ", 12), ("+7", 7), ("-12", -12), ("1E2", 100), ("1.5E1", 15), ("2D1", 20), ("&H1F", 31), ("&17", 15), ("12.0", 12), ("", 0), ("  ", 0), ("0", 0), ("32767", 32767), ("-0", 0), ("3!", 3), ("4#", 4), ("5%", 5), (".5E1", 5), ("5.", 5)];
     let bad: &[&str] = &["12abc", "abc", "1 2", "--1", "15x", "&HG", "\"5\"", "1E", "$"];
-    let strs: &[(&str, &str)] = &[("abc", "abc"), ("  abc  ", "abc"), ("\"a,b\"", "a,b"), ("\" x \"", " x "), ("", ""), ("\"\"", ""), ("hello world", "hello world"), ("\"q\" ", "q")];
+    let strs: &[(&str, &str)] = &[("éa", "éa"), ("日本 語", "日本 語"), (" ü ", "ü"), ("\"é,ü\"", "é,ü"), ("abc", "abc"), ("  abc  ", "abc"), ("\"a,b\"", "a,b"), ("\" x \"", " x "), ("", ""), ("\"\"", ""), ("hello world", "hello world"), ("\"q\" ", "q")];
     for _ in 0..n {
         let k = 1 + rng.below(3);
         let mut vars: Vec<String> = vec![];
